@@ -311,6 +311,16 @@ Theorem C06_hilbert_sched_indep : SfcSchedProofs.f64_add_exact_on_integers ->
 Proof. exact C09.C09_hilbert_sched_indep. Qed.
 Print Assumptions C06_hilbert_sched_indep.
 
+(* the same WITHOUT the float-addition premise: C09 now proves it from SpecFloat
+   through Flocq (f64 `+` is exact on integers within 2^53: classical-reals
+   axioms).  The statement with the premise above is kept (axiom-free). *)
+Theorem C06_hilbert_sched_indep_proved : forall ws, SfcSched.exact_sums ws ->
+  forall ts1 ts2 tol maxo order fuel idx k p0,
+  SfcSched.hilbert_partition_s ts1 tol maxo order fuel idx ws k p0
+  = SfcSched.hilbert_partition_s ts2 tol maxo order fuel idx ws k p0.
+Proof. exact Coupe.Properties.C09.C09_hilbert_sched_indep_proved. Qed.
+Print Assumptions C06_hilbert_sched_indep_proved.
+
 
 (* ----------------------------------------------------------------- KMeans *)
 
